@@ -57,6 +57,10 @@ impl Str { pub fn is_empty(&self) -> bool { self.len == 0 } pub fn len(&self) ->
 impl std::hash::Hash for Value { fn hash<H: std::hash::Hasher>(&self, h: &mut H) { match self { Value::String(s) => { h.write_u8(1); h.write_u8(s.id); h.write_usize(s.len); } Value::Integer(i) => { h.write_u8(2); h.write_i64(*i); } } } }
 pub struct VfHasher(pub u64);
 impl VfHasher { pub fn new() -> VfHasher { VfHasher(7) } }
+/// stands for std::collections::hash_map::RandomState: every `new()` draws fresh random keys (that is its point)
+pub struct VfRandomState(pub u64);
+impl VfRandomState { pub fn new() -> VfRandomState { VfRandomState(nondet_usize() as u64) } }
+impl std::hash::BuildHasher for VfRandomState { type Hasher = VfHasher; fn build_hasher(&self) -> VfHasher { VfHasher(self.0) } }
 impl std::hash::Hasher for VfHasher {
     fn finish(&self) -> u64 { self.0 }
     fn write(&mut self, bytes: &[u8]) { let mut i = 0; while i < bytes.len() && i < 8 { self.0 = self.0.rotate_left(5) ^ (bytes[i] as u64); i += 1; } }
